@@ -577,7 +577,7 @@ fn main() {
 		lines = read_case_lines(r);
 	} else {
 		lines.extend(corpus_lines("C15"));
-		let n = a.cases.unwrap_or(if a.tier == "thorough" { 60000 } else { 4000 });
+		let n = a.cases.unwrap_or(if a.tier == "thorough" { 400000 } else { 4000 });
 		let mut rng = Rng::new(a.seed);
 		gen_lines(&mut rng, n, &mut lines);
 	}
